@@ -609,6 +609,21 @@ def o_c06(tr):
     return bad
 
 
+def o_panic(tr):
+    """no endpoint task panics (this includes the implementation's own debug assertions: the harness is a debug build)"""
+    bad = []
+    status = tr.end[1] if tr.end else None
+    msgs = list(tr.panics)
+    if status == "panic":
+        msgs.append(tr.end[2])
+    for m in msgs:
+        if "stalled" in m:
+            continue        # executor stall: a liveness verdict, reported by the C02 oracles
+        bad.append(("e2e:panic", "an endpoint task panicked: " + m[:300]))
+        break
+    return bad
+
+
 def o_c02_term(tr):
     """the run terminates without executor stall / panic / deadline (no task parked forever)"""
     bad = []
